@@ -304,26 +304,7 @@ class GlobalApproxTides(TidesBase):
         #    w is an ill-defined frequency. Generally it is set to the orbital motion, but some set it to the spin-rate
         #        for a world experiencing NSR (see Correia 2009).
         if self._new_tidal_frequencies:
-            if self.use_ctl:
-                # CTL Method
-                # Get CTL inputs
-                # OPT: These getters could be replaced by a set_fixed_q or set_fixed_dt since they really won't change
-                #   often. It is a waste of resources to keep calling these getters.
-                ctl_inputs = self.ctl_calc_input_getter()
-
-                # Calculate new values
-                self._ctl_complex_love_by_unique_freq = \
-                    ctl_neg_imk_helper_func(
-                        self.unique_tidal_frequencies, self.fixed_k2,
-                        self.ctl_calc_method, ctl_inputs
-                        )
-            else:
-                # CPL Method
-                self._cpl_complex_love_by_unique_freq = \
-                    cpl_neg_imk_helper_func(
-                        self.unique_tidal_frequencies, self.fixed_k2,
-                        self.fixed_q
-                        )
+            self._update_complex_love()
 
         if self._need_to_collapse_modes and call_collapse_modes:
             self.collapse_modes()
@@ -331,10 +312,42 @@ class GlobalApproxTides(TidesBase):
         # Return frequencies and tidal terms
         return self.unique_tidal_frequencies, self.tidal_terms_by_frequency
 
+    def _update_complex_love(self):
+        """ Recalculate the CPL/CTL complex Love number at each unique tidal frequency.
+
+        The result depends on the unique tidal frequencies and on the fixed k2, Q and time lag; it must be
+        recalculated whenever any of those change.
+        """
+
+        if self.use_ctl:
+            # CTL Method
+            # Get CTL inputs
+            # OPT: These getters could be replaced by a set_fixed_q or set_fixed_dt since they really won't change
+            #   often. It is a waste of resources to keep calling these getters.
+            ctl_inputs = self.ctl_calc_input_getter()
+
+            # Calculate new values
+            self._ctl_complex_love_by_unique_freq = \
+                ctl_neg_imk_helper_func(
+                    self.unique_tidal_frequencies, self.fixed_k2,
+                    self.ctl_calc_method, ctl_inputs
+                    )
+        else:
+            # CPL Method
+            self._cpl_complex_love_by_unique_freq = \
+                cpl_neg_imk_helper_func(
+                    self.unique_tidal_frequencies, self.fixed_k2,
+                    self.fixed_q
+                    )
+
     def fixed_q_dt_changed(self):
         """ The fixed tidal dissipation parameters (fixed-q or fixed-dt) have changed. Make any necessary updates. """
 
         super().fixed_q_dt_changed()
+
+        # The CPL/CTL Love numbers are functions of the fixed Q / time lag: refresh them before collapsing the modes.
+        if self.unique_tidal_frequencies is not None:
+            self._update_complex_love()
 
         self.collapse_modes()
 
